@@ -509,35 +509,37 @@ fn fault_sweep(st: &mut Stats, r: &mut Rng, for_c05: bool) -> [u64; 4] {
         return tally;
     }
     let g = GenOpts { max_layers: 3, max_frames: 2, max_dim: 4, ..GenOpts::default() };
-    for i in 0..(if thorough { 24 } else { 6 }) {
+    for i in 0..(if thorough { 24 } else { 3 }) {
         let b = encode(&rand_sprite(r, &g));
         let mut inputs = Vec::new();
         window_mutants(&b, 1, &mut inputs);
-        double_mutants(&b, r, if thorough { 3000 } else { 600 }, &mut inputs);
+        double_mutants(&b, r, if thorough { 3000 } else { 300 }, &mut inputs);
         for cut in 0..b.len() {
             inputs.push(b[..cut].to_vec());
         }
         process(st, &format!("generated #{} ({} bytes): window/double/truncation", i, b.len()), inputs, for_c05, &mut tally);
     }
-    for (n, b) in corpus_files().iter() {
-        if b.len() > 20000 && !thorough {
+    let mut corpus = corpus_files();
+    corpus.sort_by_key(|(_, b)| b.len());
+    for (k, (n, b)) in corpus.iter().enumerate() {
+        if !thorough && (k >= 12 || b.len() > 8000) {
             continue;
         }
         if b.len() > 400_000 {
             continue;
         }
         let mut inputs = Vec::new();
-        let stride = if thorough { (b.len() / 1500).max(1) } else { (b.len() / 150).max(1) };
+        let stride = if thorough { (b.len() / 1500).max(1) } else { (b.len() / 60).max(1) };
         window_mutants(b, stride, &mut inputs);
-        // the first 400 bytes hold the header, the first frame header and the first chunks: every offset
-        let head = &b[..b.len().min(400)];
+        // the first bytes hold the header, the first frame header and the first chunks: every offset
+        let head = &b[..b.len().min(if thorough { 400 } else { 200 })];
         let mut hm = Vec::new();
         window_mutants(head, 1, &mut hm);
         for mut m in hm {
             m.extend_from_slice(&b[head.len()..]);
             inputs.push(m);
         }
-        double_mutants(b, r, if thorough { 500 } else { 60 }, &mut inputs);
+        double_mutants(b, r, if thorough { 500 } else { 40 }, &mut inputs);
         process(st, &format!("tests/data/{}", n), inputs, for_c05, &mut tally);
     }
     let mut inputs = Vec::new();
